@@ -1426,7 +1426,7 @@ Lemma dec_next_S : forall f d s,
   dec_next (S f) d s =
   match dec_fill d with
   | inr e => Ok (d, s, if isnil e then eEOF else e)
-  | inl d1 => dec_body f d1 s
+  | inl d1 => if zlen (d_buf d1) =? 0 then dec_next f d1 s else dec_body f d1 s
   end.
 Proof. intros. reflexivity. Qed.
 
@@ -1436,6 +1436,7 @@ Proof.
   - apply Rep_abort.
   - eapply Rep_ext; [intros s; rewrite dec_next_S; reflexivity|].
     destruct (dec_fill d) as [d1|e]; [|apply Rep_ret].
+    destruct (zlen (d_buf d1) =? 0); [apply IH|].
     unfold dec_body.
     apply (Rep_bind _ _ (fun s => ores (feed_until (feed_fuel (d_buf d1)) (d_p d1) s (d_buf d1)))
              (fun a _ => {| d_p := fst (fst a); d_buf := d_buf d1; d_script := d_script d1; d_bytesdec := d_bytesdec d1 |})
@@ -1494,7 +1495,9 @@ Proof.
     cbv zeta in E. destruct ((zlen data =? 0) && negb (err =? 0)); [discriminate|].
     inversion E. reflexivity. }
   destruct (dec_fill d) as [d1|e] eqn:Ef.
-  - specialize (Hfill d1 eq_refl). unfold dec_body in H.
+  - specialize (Hfill d1 eq_refl).
+    destruct (zlen (d_buf d1) =? 0); [apply IH in H; [exact H|rewrite Hfill; exact HI]|].
+    unfold dec_body in H.
     destruct (feed_until (feed_fuel (d_buf d1)) (d_p d1) s (d_buf d1)) as [[p1 s1 rest done err|w]| | |] eqn:Hf;
       try discriminate.
     destruct (isnil err) eqn:Ee; cbn [negb] in H; [|inversion H; subst; kill_nil].
@@ -1506,3 +1509,436 @@ Proof.
   - injection H as _ _ He. destruct (isnil e) eqn:Ee; [discriminate He|]. subst e. kill_nil.
 Qed.
 Print Assumptions C18_cbor_next_between_partial.
+
+(* ---------------------------------------------------------------------- *)
+(* C18: Next depends only on the bytes that remain to be read.            *)
+(* Uses the one-step chunking dichotomy of Cbor/ChunkProofs.v.            *)
+(* ---------------------------------------------------------------------- *)
+From SF Require Cbor.ChunkProofs.
+
+Definition CInv := ChunkProofs.Inv.
+Definition startx := ChunkProofs.startx.
+
+Definition fures := (cparser * sink * bytes * bool * Z)%type.
+
+(* feedUntil without fuel *)
+Inductive RU : cparser -> sink -> bytes -> fures -> Prop :=
+| RU_end : forall p s b p1 s1 rest d e,
+    exec_step p s b = SR p1 s1 rest d e -> d = true \/ e <> nilE -> RU p s b (p1, s1, rest, d, e)
+| RU_cont : forall p s b p1 s1 rest r,
+    exec_step p s b = SR p1 s1 rest false nilE -> rest <> [] \/ startx p1 = true ->
+    RU p1 s1 rest r -> RU p s b r
+| RU_stop : forall p s b p1 s1,
+    exec_step p s b = SR p1 s1 [] false nilE -> startx p1 = false ->
+    RU p s b (p1, s1, [], false, nilE).
+
+Lemma isnil_false : forall e, isnil e = false -> e <> nilE.
+Proof. intros e H E. subst e. vm_compute in H. discriminate. Qed.
+
+Lemma feed_until_RU : forall n p s b p1 s1 rest d e,
+  feed_until n p s b = Ok (SR p1 s1 rest d e) -> RU p s b (p1, s1, rest, d, e).
+Proof.
+  induction n as [|n IH]; intros p s b p1 s1 rest d e H; [discriminate|].
+  cbn [feed_until] in H.
+  destruct (exec_step p s b) as [pa sa ra da ea|w] eqn:E; [|discriminate].
+  destruct (da || negb (isnil ea)) eqn:E1.
+  - inversion H; subst. eapply RU_end; [exact E|].
+    apply orb_true_iff in E1. destruct E1 as [E1|E1]; [left; exact E1|right].
+    apply negb_true_iff in E1. apply isnil_false. exact E1.
+  - apply orb_false_iff in E1. destruct E1 as [-> E1]. apply negb_false_iff in E1.
+    apply isnil_true in E1. subst ea.
+    destruct (negb (zlen ra =? 0)) eqn:E2.
+    + cbn [orb] in H. eapply RU_cont; [exact E| |eapply IH; exact H].
+      left. intros ->. discriminate.
+    + cbn [orb] in H. apply negb_false_iff in E2. apply Z.eqb_eq in E2. apply zlen_0_nil in E2. subst ra.
+      fold (startx pa) in H. unfold ChunkProofs.startx in H.
+      destruct (Z.land (c_major (p_cur pa)) (stStartX + stIndef) =? stStartX) eqn:E3.
+      * eapply RU_cont; [exact E|right; exact E3|eapply IH; exact H].
+      * inversion H; subst. eapply RU_stop; [exact E|exact E3].
+Qed.
+
+Lemma RU_det : forall p s b r, RU p s b r -> forall r', RU p s b r' -> r = r'.
+Proof.
+  induction 1 as [p s b p1 s1 rest d e E Hn | p s b p1 s1 rest r E Hc _ IH | p s b p1 s1 E Hx];
+    intros r' H'; inversion H'; subst;
+    match goal with H : exec_step _ _ _ = _ |- _ => rewrite E in H; inversion H; subst end;
+    try reflexivity;
+    try (match goal with H : _ \/ _ |- _ => destruct H; congruence end);
+    try (apply IH; assumption).
+Qed.
+
+Lemma RU_short : forall p s b p1 s1 rest,
+  RU p s b (p1, s1, rest, false, nilE) -> rest = [] /\ startx p1 = false.
+Proof.
+  intros p s b p1 s1 rest H. remember (p1, s1, rest, false, nilE) as r eqn:Hr.
+  induction H as [p s b pa sa ra d e E Hn | p s b pa sa ra r E Hc _ IH | p s b pa sa E Hx].
+  - inversion Hr; subst. destruct Hn; congruence.
+  - apply IH. exact Hr.
+  - inversion Hr; subst. auto.
+Qed.
+
+Lemma RU_inv : forall p s b r, RU p s b r -> CInv p ->
+  let '(p1, _, _, _, e) := r in e = nilE -> CInv p1.
+Proof.
+  induction 1 as [p s b p1 s1 rest d e E Hn | p s b p1 s1 rest r E Hc _ IH | p s b p1 s1 E Hx]; intros HI.
+  - intros ->. eapply ChunkProofs.exec_inv; eauto.
+  - apply IH. eapply ChunkProofs.exec_inv; eauto.
+  - intros _. eapply ChunkProofs.exec_inv; eauto.
+Qed.
+
+(* same visitor, same error; the same parser, rest and done flag unless an error occurred *)
+Definition simu (r r' : fures) : Prop :=
+  let '(p, s, rest, d, e) := r in let '(p', s', rest', d', e') := r' in
+  s = s' /\ e = e' /\ (e = nilE -> p = p' /\ rest = rest' /\ d = d').
+
+Lemma simu_refl : forall r, simu r r.
+Proof. intros [[[[p s] rest] d] e]. cbn. auto. Qed.
+
+Lemma RU_ext_nil : forall p1 s1 b p s x r,
+  ChunkProofs.ext [] (exec_step p1 s1 b) (exec_step p s x) -> RU p1 s1 b r ->
+  exists r', RU p s x r' /\ simu r r'.
+Proof.
+  intros p1 s1 b p s x r X H.
+  inversion H; subst;
+    match goal with E : exec_step p1 s1 b = _ |- _ => rewrite E in X end;
+    destruct (exec_step p s x) as [pw sw restw dw ew|w] eqn:W; cbn [ChunkProofs.ext] in X;
+    try contradiction; destruct X as (<- & <- & X).
+  - (* end *)
+    match goal with Hn : _ \/ _ |- _ => rename Hn into Hn end.
+    destruct (Z.eq_dec e nilE) as [->|He].
+    + destruct (X eq_refl) as (<- & <- & ->). rewrite app_nil_r in W.
+      eexists; split; [eapply RU_end; eauto|apply simu_refl].
+    + eexists; split; [eapply RU_end; [exact W|right; exact He]|].
+      cbn. split; [reflexivity|]. split; [reflexivity|]. intros E'. congruence.
+  - destruct (X eq_refl) as (<- & <- & ->). rewrite app_nil_r in W.
+    eexists; split; [eapply RU_cont; eauto|apply simu_refl].
+  - destruct (X eq_refl) as (<- & <- & ->). cbn [app] in W.
+    eexists; split; [eapply RU_stop; eauto|apply simu_refl].
+Qed.
+
+(* feedUntil on a ++ b versus feedUntil on a, then (if more input is needed) on b *)
+Lemma RU_merge : forall p s a r, RU p s a r ->
+  CInv p -> a <> [] \/ startx p = true -> forall b, b <> [] ->
+  let '(p1, s1, rest, d, e) := r in
+  (e <> nilE -> exists p1' rest' d', RU p s (a ++ b) (p1', s1, rest', d', e)) /\
+  (e = nilE -> d = true -> RU p s (a ++ b) (p1, s1, rest ++ b, true, nilE)) /\
+  (e = nilE -> d = false ->
+     forall r2, RU p1 s1 b r2 -> exists r2', RU p s (a ++ b) r2' /\ simu r2 r2').
+Proof.
+  induction 1 as [p s a p1 s1 rest d e E Hn | p s a p1 s1 rest r E Hc HR IH | p s a p1 s1 E Hx];
+    intros HI Ha b Hb;
+    pose proof (ChunkProofs.exec_dich p s a b HI Ha Hb) as D; rewrite E in D; cbn [ChunkProofs.Dich] in D.
+  - (* end *)
+    assert (D' : ChunkProofs.ext b (SR p1 s1 rest d e) (exec_step p s (a ++ b))).
+    { destruct D as [D|(_ & Hd & He & _)]; [exact D|]. destruct Hn; congruence. }
+    destruct (exec_step p s (a ++ b)) as [p2 s2 rest2 d2 e2|w] eqn:W; cbn [ChunkProofs.ext] in D';
+      [|contradiction].
+    destruct D' as (<- & <- & D'). split; [|split].
+    + intros He. exists p2, rest2, d2. eapply RU_end; [exact W|right; exact He].
+    + intros -> ->. destruct (D' eq_refl) as (<- & <- & ->). eapply RU_end; [exact W|left; reflexivity].
+    + intros -> ->. destruct Hn; congruence.
+  - (* cont *)
+    assert (D' : ChunkProofs.ext b (SR p1 s1 rest false nilE) (exec_step p s (a ++ b))).
+    { destruct D as [D|(Hr & _ & _ & Hx & _)]; [exact D|]. fold (startx p1) in Hx.
+      destruct Hc; congruence. }
+    destruct (exec_step p s (a ++ b)) as [p2 s2 rest2 d2 e2|w] eqn:W; cbn [ChunkProofs.ext] in D';
+      [|contradiction].
+    destruct D' as (<- & <- & D'). destruct (D' eq_refl) as (<- & <- & ->).
+    assert (HI1 : CInv p1) by (eapply ChunkProofs.exec_inv; eauto).
+    specialize (IH HI1 Hc b Hb).
+    assert (Hrb : rest ++ b <> [] \/ startx p1 = true).
+    { left. destruct rest; [cbn; exact Hb|discriminate]. }
+    destruct r as [[[[pr sr] restr] dr] er]. destruct IH as (IH1 & IH2 & IH3).
+    split; [|split].
+    + intros He. destruct (IH1 He) as (p1' & rest' & d' & R1). exists p1', rest', d'.
+      eapply RU_cont; eauto.
+    + intros He Hd. eapply RU_cont; eauto.
+    + intros He Hd r2 R2. destruct (IH3 He Hd r2 R2) as (r2' & R2' & S2).
+      exists r2'. split; [eapply RU_cont; eauto|exact S2].
+  - (* stop *)
+    split; [congruence|]. split; [discriminate|]. intros _ _ r2 R2.
+    destruct D as [D|(_ & _ & _ & _ & D)].
+    + destruct (exec_step p s (a ++ b)) as [p2 s2 rest2 d2 e2|w] eqn:W; cbn [ChunkProofs.ext] in D;
+        [|contradiction].
+      destruct D as (<- & <- & D). destruct (D eq_refl) as (<- & <- & ->). cbn [app] in W.
+      exists r2. split; [|apply simu_refl]. eapply RU_cont; [exact W|left; exact Hb|exact R2].
+    + eapply RU_ext_nil; eauto.
+Qed.
+
+(* ---------- one Next call as a function of all bytes still to come ---------- *)
+Definition finE (p : cparser) : Z := if isnil (finalize p) then eEOF else finalize p.
+Definition nres := (cparser * sink * bytes * Z)%type.
+
+(* [NextW p s W r]: Next on a decoder in parser state p whose remaining input
+   (buffer and everything the reader will still deliver) is W *)
+Inductive NextW : cparser -> sink -> bytes -> nres -> Prop :=
+| NW_eof : forall p s, NextW p s [] (p, s, [], finE p)
+| NW_err : forall p s W p1 s1 rest d e,
+    W <> [] -> RU p s W (p1, s1, rest, d, e) -> e <> nilE -> NextW p s W (p1, s1, rest, e)
+| NW_done : forall p s W p1 s1 rest,
+    W <> [] -> RU p s W (p1, s1, rest, true, nilE) -> NextW p s W (p1, s1, rest, nilE)
+| NW_short : forall p s W p1 s1,
+    W <> [] -> RU p s W (p1, s1, [], false, nilE) -> NextW p s W (p1, s1, [], finE p1).
+
+Lemma finE_not_nil : forall p, finE p <> nilE.
+Proof.
+  intros p. unfold finE. destruct (isnil (finalize p)) eqn:E; [discriminate|].
+  apply isnil_false. exact E.
+Qed.
+
+Lemma NextW_det : forall p s W r r', NextW p s W r -> NextW p s W r' -> r = r'.
+Proof.
+  intros p s W r r' H H'.
+  inversion H; subst; inversion H'; subst; try congruence;
+    match goal with
+    | H1 : RU _ _ _ _, H2 : RU _ _ _ _ |- _ => pose proof (RU_det _ _ _ _ H1 _ H2) as E; inversion E; subst
+    end; try congruence; try reflexivity.
+Qed.
+
+Definition simW (r r' : nres) : Prop :=
+  let '(p, s, rest, e) := r in let '(p', s', rest', e') := r' in
+  s = s' /\ e = e' /\ (e = nilE -> p = p' /\ rest = rest').
+
+Lemma NextW_merge_short : forall p s a p1 s1 T r2,
+  RU p s a (p1, s1, [], false, nilE) -> CInv p -> a <> [] ->
+  NextW p1 s1 T r2 -> exists r2', NextW p s (a ++ T) r2' /\ simW r2 r2'.
+Proof.
+  intros p s a p1 s1 T r2 HR HI Ha HN.
+  assert (HaT : a ++ T <> []) by (destruct a; [congruence|discriminate]).
+  inversion HN; subst.
+  - rewrite app_nil_r. eexists. split; [eapply NW_short; eauto|]. cbn. auto.
+  - pose proof (RU_merge _ _ _ _ HR HI (or_introl Ha) T H) as (_ & _ & M).
+    destruct (M eq_refl eq_refl _ H0) as ([[[[pm sm] restm] dm] em] & R2 & S2).
+    cbn [simu] in S2. destruct S2 as (<- & <- & S2).
+    eexists. split; [eapply NW_err; eauto|]. cbn. split; [reflexivity|]. split; [reflexivity|]. congruence.
+  - pose proof (RU_merge _ _ _ _ HR HI (or_introl Ha) T H) as (_ & _ & M).
+    destruct (M eq_refl eq_refl _ H0) as ([[[[pm sm] restm] dm] em] & R2 & S2).
+    cbn [simu] in S2. destruct S2 as (<- & <- & S2). destruct (S2 eq_refl) as (<- & <- & <-).
+    eexists. split; [eapply NW_done; eauto|]. cbn. auto.
+  - pose proof (RU_merge _ _ _ _ HR HI (or_introl Ha) T H) as (_ & _ & M).
+    destruct (M eq_refl eq_refl _ H0) as ([[[[pm sm] restm] dm] em] & R2 & S2).
+    cbn [simu] in S2. destruct S2 as (<- & <- & S2). destruct (S2 eq_refl) as (<- & <- & <-).
+    eexists. split; [eapply NW_short; eauto|]. cbn. split; [reflexivity|]. split; [reflexivity|].
+    intros E. exfalso. exact (finE_not_nil _ E).
+Qed.
+
+Lemma NextW_of_err : forall p s a p1 s1 rest d e T,
+  RU p s a (p1, s1, rest, d, e) -> e <> nilE -> CInv p -> a <> [] ->
+  exists p1' rest', NextW p s (a ++ T) (p1', s1, rest', e).
+Proof.
+  intros p s a p1 s1 rest d e T HR He HI Ha.
+  assert (HaT : a ++ T <> []) by (destruct a; [congruence|discriminate]).
+  destruct T as [|t T].
+  - rewrite app_nil_r. exists p1, rest. eapply NW_err; eauto.
+  - pose proof (RU_merge _ _ _ _ HR HI (or_introl Ha) (t :: T) ltac:(discriminate)) as (M & _ & _).
+    destruct (M He) as (p1' & rest' & d' & R'). exists p1', rest'. eapply NW_err; eauto.
+Qed.
+
+Lemma NextW_of_done : forall p s a p1 s1 rest T,
+  RU p s a (p1, s1, rest, true, nilE) -> CInv p -> a <> [] ->
+  NextW p s (a ++ T) (p1, s1, rest ++ T, nilE).
+Proof.
+  intros p s a p1 s1 rest T HR HI Ha.
+  assert (HaT : a ++ T <> []) by (destruct a; [congruence|discriminate]).
+  destruct T as [|t T].
+  - rewrite !app_nil_r. eapply NW_done; eauto.
+  - pose proof (RU_merge _ _ _ _ HR HI (or_introl Ha) (t :: T) ltac:(discriminate)) as (_ & M & _).
+    eapply NW_done; eauto.
+Qed.
+
+(* ---------- read scripts ---------- *)
+(* a well-behaved reader: every read returns a nil error (with any number of
+   bytes, possibly none), except that the last read may carry io.EOF (with or
+   without data) *)
+Fixpoint script_okb (sc : list (bytes * Z)) : bool :=
+  match sc with
+  | [] => true
+  | (data, err) :: r =>
+      match r with
+      | [] => (err =? 0) || (err =? eEOF)
+      | _ :: _ => (err =? 0) && script_okb r
+      end
+  end.
+
+Lemma script_okb_tail : forall x r, script_okb (x :: r) = true -> script_okb r = true.
+Proof.
+  intros [data err] r H. destruct r as [|y r]; [reflexivity|].
+  cbn [script_okb] in H. apply andb_true_iff in H. destruct H as [_ H]. exact H.
+Qed.
+
+(* everything the decoder will still see *)
+Definition tailb (d : cdecoder) : bytes :=
+  if d_bytesdec d then [] else concat (map fst (d_script d)).
+Definition rem (d : cdecoder) : bytes := d_buf d ++ tailb d.
+
+Definition dpost (d' : cdecoder) (e : Z) : Prop :=
+  e = nilE -> script_okb (d_script d') = true /\ CInv (d_p d').
+
+Lemma dec_body_sound : forall f,
+  (forall d s d' s' e, CInv (d_p d) -> script_okb (d_script d) = true ->
+     dec_next f d s = Ok (d', s', e) ->
+     exists r, NextW (d_p d) s (rem d) r /\ simW r (d_p d', s', rem d', e) /\ dpost d' e) ->
+  forall d1 s d' s' e, CInv (d_p d1) -> script_okb (d_script d1) = true -> d_buf d1 <> [] ->
+     dec_body f d1 s = Ok (d', s', e) ->
+     exists r, NextW (d_p d1) s (rem d1) r /\ simW r (d_p d', s', rem d', e) /\ dpost d' e.
+Proof.
+  intros f IH d1 s d' s' e HI Hsc Hb H. unfold dec_body in H.
+  destruct (feed_until (feed_fuel (d_buf d1)) (d_p d1) s (d_buf d1)) as [[p1 s1 rest done err|w]| | |] eqn:Hf;
+    try discriminate.
+  apply feed_until_RU in Hf.
+  destruct (isnil err) eqn:Ee; cbn [negb] in H.
+  - apply isnil_true in Ee. subst err.
+    pose proof (RU_inv _ _ _ _ Hf HI eq_refl) as HI1.
+    destruct done.
+    + inversion H; subst. unfold rem at 1. cbn [d_p d_buf].
+      eexists. split; [eapply NextW_of_done; eauto|].
+      split; [cbn; unfold rem, tailb; cbn [d_buf d_script d_bytesdec]; auto|].
+      intros _. cbn [d_script d_p]. auto.
+    + destruct (RU_short _ _ _ _ _ _ Hf) as [-> Hx].
+      apply IH in H; [|exact HI1|exact Hsc].
+      destruct H as (r2 & N2 & S2 & P2). cbn [d_p] in N2.
+      unfold rem in N2 at 1. cbn [d_buf app] in N2.
+      change (tailb {| d_p := p1; d_buf := []; d_script := d_script d1; d_bytesdec := d_bytesdec d1 |})
+        with (tailb d1) in N2.
+      destruct (NextW_merge_short _ _ _ _ _ _ _ Hf HI Hb N2) as (r2' & N2' & S2').
+      exists r2'. split; [exact N2'|]. split; [|exact P2].
+      destruct r2 as [[[pa sa] ra] ea]. destruct r2' as [[[pb sb] rb] eb].
+      cbn [simW] in *. destruct S2' as (<- & <- & S2'). destruct S2 as (<- & <- & S2).
+      split; [reflexivity|]. split; [reflexivity|]. intros E.
+      destruct (S2' E) as (<- & <-). exact (S2 E).
+  - apply isnil_false in Ee. inversion H; subst.
+    destruct (NextW_of_err _ _ _ _ _ _ _ _ (tailb d1) Hf Ee HI Hb) as (p1' & rest' & N).
+    eexists. split; [exact N|]. split; [cbn; split; [reflexivity|]; split; [reflexivity|congruence]|].
+    intros E. congruence.
+Qed.
+
+Lemma dec_next_sound : forall fuel d s d' s' e,
+  CInv (d_p d) -> script_okb (d_script d) = true ->
+  dec_next fuel d s = Ok (d', s', e) ->
+  exists r, NextW (d_p d) s (rem d) r /\ simW r (d_p d', s', rem d', e) /\ dpost d' e.
+Proof.
+  induction fuel as [|f IH]; intros d s d' s' e HI Hsc H; [discriminate|].
+  rewrite dec_next_S in H. unfold dec_fill in H.
+  destruct (zlen (d_buf d) =? 0) eqn:Eb.
+  - apply Z.eqb_eq in Eb. apply zlen_0_nil in Eb.
+    assert (Heof : forall (Ht : tailb d = []),
+      Ok (d, s, if isnil (finalize (d_p d)) then eEOF else finalize (d_p d)) = Ok (d', s', e) ->
+      exists r, NextW (d_p d) s (rem d) r /\ simW r (d_p d', s', rem d', e) /\ dpost d' e).
+    { intros Ht H0. inversion H0; subst. unfold rem. rewrite Eb, Ht. cbn [app].
+      eexists. split; [apply NW_eof|]. split; [cbn; auto|].
+      intros E. exfalso. exact (finE_not_nil _ E). }
+    destruct (d_bytesdec d) eqn:Ebd.
+    + apply Heof; [unfold tailb; rewrite Ebd; reflexivity|exact H].
+    + destruct (d_script d) as [|[data err] rest] eqn:Esc.
+      * apply Heof; [unfold tailb; rewrite Ebd, Esc; reflexivity|exact H].
+      * cbv zeta in H.
+        destruct ((zlen data =? 0) && negb (err =? 0)) eqn:Ec.
+        -- (* empty read with an error: by script_okb it is the final io.EOF *)
+           apply andb_true_iff in Ec. destruct Ec as [Ec1 Ec2].
+           apply Z.eqb_eq in Ec1. apply zlen_0_nil in Ec1. subst data.
+           apply negb_true_iff in Ec2.
+           assert (Hlast : rest = [] /\ err = eEOF).
+           { cbn [script_okb] in Hsc. destruct rest as [|y rest].
+             - rewrite Ec2 in Hsc. cbn [orb] in Hsc. apply Z.eqb_eq in Hsc. auto.
+             - rewrite Ec2 in Hsc. discriminate. }
+           destruct Hlast as [-> ->]. change (eEOF =? eEOF) with true in H. cbv iota in H.
+           apply Heof; [unfold tailb; rewrite Ebd, Esc; reflexivity|exact H].
+        -- set (d1 := {| d_p := d_p d; d_buf := data; d_script := rest; d_bytesdec := false |}) in *.
+           assert (Hrem : rem d = rem d1).
+           { unfold rem, tailb. rewrite Eb, Ebd, Esc. cbn [d_buf d_script d_bytesdec map fst concat app]. reflexivity. }
+           rewrite Hrem. change (d_p d) with (d_p d1).
+           pose proof (script_okb_tail _ _ Hsc) as Hsc1.
+           destruct (zlen (d_buf d1) =? 0) eqn:Ed.
+           ++ eapply IH; [exact HI|exact Hsc1|exact H].
+           ++ eapply (dec_body_sound f IH); [exact HI|exact Hsc1| |exact H].
+              intros E. rewrite E in Ed. discriminate.
+  - rewrite Eb in H.
+    assert (Hd : d_buf d <> []) by (intros E; rewrite E in Eb; discriminate).
+    eapply (dec_body_sound f IH); eauto.
+Qed.
+
+(* Script independence, one call: two decoders in the same parser state with
+   the same bytes still to come (however these are split between the buffer and
+   the reads of a well-behaved reader, and whether the last bytes come together
+   with io.EOF or before it; a bytes decoder is the case "everything is in the
+   buffer") deliver the same events and the same verdict, and after a
+   successful call they are again in such a pair of states. *)
+Theorem C18_cbor_script_independent_partial : forall f1 f2 d1 d2 s d1' s1' e1 d2' s2' e2,
+  CInv (d_p d1) -> d_p d1 = d_p d2 -> rem d1 = rem d2 ->
+  script_okb (d_script d1) = true -> script_okb (d_script d2) = true ->
+  dec_next f1 d1 s = Ok (d1', s1', e1) -> dec_next f2 d2 s = Ok (d2', s2', e2) ->
+  s1' = s2' /\ e1 = e2 /\
+  (e1 = nilE -> d_p d1' = d_p d2' /\ rem d1' = rem d2' /\ CInv (d_p d1') /\
+                script_okb (d_script d1') = true /\ script_okb (d_script d2') = true).
+Proof.
+  intros f1 f2 d1 d2 s d1' s1' e1 d2' s2' e2 HI Hp Hr Hs1 Hs2 H1 H2.
+  destruct (dec_next_sound _ _ _ _ _ _ HI Hs1 H1) as (r1 & N1 & S1 & P1).
+  assert (HI2 : CInv (d_p d2)) by (rewrite <- Hp; exact HI).
+  destruct (dec_next_sound _ _ _ _ _ _ HI2 Hs2 H2) as (r2 & N2 & S2 & P2).
+  rewrite <- Hp, <- Hr in N2. pose proof (NextW_det _ _ _ _ _ N1 N2) as E. subst r2.
+  destruct r1 as [[[pa sa] ra] ea]. cbn [simW] in S1, S2.
+  destruct S1 as (<- & <- & S1). destruct S2 as (<- & <- & S2).
+  split; [reflexivity|]. split; [reflexivity|]. intros E.
+  destruct (S1 E) as (A1 & B1). destruct (S2 E) as (A2 & B2).
+  destruct (P1 E) as [Q1 Q2]. destruct (P2 E) as [Q3 _].
+  split; [congruence|]. split; [congruence|]. auto.
+Qed.
+Print Assumptions C18_cbor_script_independent_partial.
+
+(* the observable behaviour of up to k calls of Next: the visitor's log and the
+   verdict after each call, stopping at the first non-nil verdict *)
+Fixpoint dec_run (fuel k : nat) (d : cdecoder) (s : sink) : res (list (list event * Z)) :=
+  match k with
+  | O => Ok []
+  | S k' =>
+      match dec_next fuel d s with
+      | Ok (d', s', e) =>
+          if isnil e then
+            match dec_run fuel k' d' s' with
+            | Ok l => Ok ((s_log s', e) :: l)
+            | x => x
+            end
+          else Ok [(s_log s', e)]
+      | Err e => Err e | Panic w => Panic w | OutOfFuel => OutOfFuel
+      end
+  end.
+
+Theorem C18_cbor_run_script_independent_partial : forall f1 f2 k d1 d2 s l1 l2,
+  CInv (d_p d1) -> d_p d1 = d_p d2 -> rem d1 = rem d2 ->
+  script_okb (d_script d1) = true -> script_okb (d_script d2) = true ->
+  dec_run f1 k d1 s = Ok l1 -> dec_run f2 k d2 s = Ok l2 -> l1 = l2.
+Proof.
+  induction k as [|k IH]; intros d1 d2 s l1 l2 HI Hp Hr Hs1 Hs2 H1 H2; cbn [dec_run] in H1, H2.
+  - congruence.
+  - destruct (dec_next f1 d1 s) as [[[d1' s1'] e1]| | |] eqn:E1; try discriminate.
+    destruct (dec_next f2 d2 s) as [[[d2' s2'] e2]| | |] eqn:E2; try discriminate.
+    destruct (C18_cbor_script_independent_partial _ _ _ _ _ _ _ _ _ _ _ HI Hp Hr Hs1 Hs2 E1 E2)
+      as (<- & <- & K).
+    destruct (isnil e1) eqn:Ee.
+    + apply isnil_true in Ee. subst e1. destruct (K eq_refl) as (Kp & Kr & KI & Ks1 & Ks2).
+      destruct (dec_run f1 k d1' s1') as [l1'| | |] eqn:R1; try discriminate.
+      destruct (dec_run f2 k d2' s1') as [l2'| | |] eqn:R2; try discriminate.
+      rewrite (IH _ _ _ _ _ KI Kp Kr Ks1 Ks2 R1 R2) in H1. congruence.
+    + congruence.
+Qed.
+Print Assumptions C18_cbor_run_script_independent_partial.
+
+(* in particular: a reader decoder behaves like the bytes decoder on the
+   concatenation of everything the reader delivers *)
+Definition reader_dec (sc : list (bytes * Z)) : cdecoder :=
+  {| d_p := cparser0; d_buf := []; d_script := sc; d_bytesdec := false |}.
+Definition bytes_dec (b : bytes) : cdecoder :=
+  {| d_p := cparser0; d_buf := b; d_script := []; d_bytesdec := true |}.
+
+Corollary C18_cbor_reader_as_bytes_partial : forall f1 f2 k sc s l1 l2,
+  script_okb sc = true ->
+  dec_run f1 k (reader_dec sc) s = Ok l1 ->
+  dec_run f2 k (bytes_dec (concat (map fst sc))) s = Ok l2 -> l1 = l2.
+Proof.
+  intros f1 f2 k sc s l1 l2 Hsc H1 H2.
+  eapply (C18_cbor_run_script_independent_partial f1 f2 k (reader_dec sc) (bytes_dec (concat (map fst sc))));
+    try eassumption; try reflexivity.
+  - exact ChunkProofs.Inv0.
+  - unfold rem, tailb, reader_dec, bytes_dec. cbn [d_buf d_script d_bytesdec app]. rewrite app_nil_r. reflexivity.
+Qed.
+Print Assumptions C18_cbor_reader_as_bytes_partial.
